@@ -2,21 +2,34 @@
 
 PROPERTIES = {
     "C20": dict(
-        modules=["roads"],
+        modules=["roads", "xodr"],
         level="other",
         claim="proof part: Network.fromPickle accepts a cache only for the current format version and the expected map / options digests (else UnpicklingError / "
         "DigestMismatchError), dumpPickle writes exactly that header, fromFile uses the cache only when enabled, present and accepted for the digests of the current file "
         "and options and otherwise re-parses (and re-writes the cache with the current digests); deterministicHash feeds the separator encoding of the options sorted by key "
         "and the encoding is injective on NUL-free value texts; findPointIn / _findPointInAll two-pass lookup with priority order; the *At wrappers and the priority lists. "
-        "Consistency of the networks produced by xodr_parser is NOT proved (bounded stand-in).",
+        "Link building of xodr_parser (Road.toScenicRoad, RoadMap.toScenicNetwork for roads joined by road links, Network.__attrs_post_init__ bookkeeping) is interpreted on a bounded catalogue of road "
+        "layouts with abstract geometry (contracts/xodr.py, bounded checks, never counted as proved): reciprocal section / lane-section / lane / group / road links, lane sections listed in travel order, "
+        "ownership back-pointers, adjacency per lane section following the OpenDRIVE numbering and symmetric, element registry keyed by uid and covering all lists. "
+        "Consistency of the networks produced by xodr_parser for every map is NOT proved (bounded stand-in).",
         note="shapely, gzip, pickle, pathlib abstract; blake2b collision-freeness trusted",
         assumptions=[
             "blake2b collision-freeness; digest is a function of the bytes hashed",
             "STRtree.query(g, predicate='intersects') returns exactly the indices of intersecting geometries; Point.buffer(d) contains the point",
             "option values are int/float/bool or NUL-free str, one type per option; str() injective on each of these types",
             "deterministicHash stream shape checked for mappings of up to 3 options (loop unrolled), all insertion orders and value types",
+            "attrs-generated constructors of the element classes (pyvc/models_xodr.py): one keyword per annotated attribute, defaults from the class body, then the real __attrs_post_init__; enum.auto() distinct per member",
+            "road geometry abstract in contracts/xodr.py: polygons / regions are tokens, containsRegion / overlaps answer as the construction-time assertions expect",
+            "roads whose lanes of one direction are absent from the first lane section in travel direction / merging lanes with constant widths make xodr_parser raise IndexError / AssertionError: "
+            "no network is built, outside C20's statement; candidate repairs in notes/candidate_fixes (decided from the layout in contracts/xodr.py: excused_exceptions; every other layout keeps no_exception)",
+            "xodr layouts: lane links inside a road declared on both sides (a one-sided map link cannot be reciprocal: KNOWN finding CulDeSac.xodr)",
         ],
-        not_reached=["reciprocity / containment / coverage / tangency of the networks built by xodr_parser for every map"],
+        not_reached=[
+            "reciprocity / containment / coverage / tangency of the networks built by xodr_parser for every map",
+            "xodr_parser.Road.calc_geometry_for_type / calculate_geometry (shapely + numeric geometry): its pairing of lane-section polygons into lane polygons enters the toScenicRoad contract as a stated frame only",
+            "RoadMap.toScenicNetwork: junctions / connecting roads / maneuvers / cyclicOrder (Vector arithmetic), remappedStartLanes, elided roads; RoadMap.parse and calculate_geometry (gap / intersection filling)",
+            "toScenicRoad: sidewalk / shoulder lanes (combineSections uses numpy), signals; symbolic numbers of lanes / sections (the carrier indexes dictionaries by lane id and follows link chains in while-loops)",
+        ],
         bounded=[
             "standins/road_networks.py: C20's clauses as run-time contracts on real Network objects: quick tier 5 smallest non-empty maps under assets/maps + LGSVL/cubetown.xodr (intersections) x 60 random points, "
             "cache-vs-parse field-by-field and cache invalidation on changed options / changed map; thorough tier every non-empty map <= 1 MB x 3 option combinations x 400 points",
